@@ -9,6 +9,7 @@ from props import common as K
 
 META = {
     "level": "other",
+    "technique": "static analysis of type-checked MIR (rustc_private driver): accepted-language extraction (byte classes by abstract interpretation, loop form) compared as a set with Rsync::join's language; must-pass and guard rules",
     "explanation": "The accepted file-name language is computed from the MIR (byte classes by abstract interpretation, loop "
                    "form and exit edges of validate_file_name) and shown to be [-_0-9A-Za-z]* '.' [A-Za-z]{3}; it is then "
                    "compared as a set with what uri::Rsync::join accepts (URI byte class, no '/', not '.'/'..', non-empty), "
